@@ -64,6 +64,12 @@ def run(run_, pkg, tier):
             key = "C04-ii/assembly/%s" % scn.name
             if run_.wants(key):
                 tasks.append((key, "C04-ii-gauss-newton-step", assembly_obligation(scn), "%s:%d" % (gfn._gs_module, gfn.lineno)))
+    from .c02 import graph_own_vertices_obligation
+    cfn = pkg.method("Graph", "calc_chi2")
+    for cls in ("PoseR2", "PoseR3"):
+        key = "C04-i/graph-works-on-its-own-vertices/%s" % cls
+        if run_.wants(key):
+            tasks.append((key, "C04-i-own-vertices", graph_own_vertices_obligation(cls), "%s:%d" % (cfn._gs_module, cfn.lineno)))
     record(run_, tasks, run_tasks(pkg, tasks))
     run_.floor("C04 obligations", len(tasks) if run_.only is None else 20, 20)
     if run_.only is None:
